@@ -557,7 +557,7 @@ def run(chk, p, t):
         "exactness as values, symmetry of lineOfSight as numbers, the Sun-fraction range."
     )
     chk.assumptions += ["getAzimuth returns an angle in [0, 2pi) (wrapAngle2Pi), getElevation in [-pi/2, pi/2]", "mask limits lie in [0, 2pi] (enforced by the az_mask setter)"]
-    for fn in (rule_r1, rule_r2, rule_r3, rule_r4, rule_r5):
+    for fn in (rule_r1, rule_r2, rule_r3, rule_r4, rule_r5, rule_r6):
         rid = "C14.R" + fn.__name__[-1]
         if not chk.wants(rid):
             continue
@@ -566,6 +566,90 @@ def run(chk, p, t):
         except (Undecided, AnchorError) as e:
             rr = chk.rule(rid + ".x", fn.__name__, 0, "-")
             (rr.undecided if isinstance(e, Undecided) else rr.error)(fn.__name__, str(e))
+
+
+def rule_r6(chk, p, t, rid="C14.R6"):
+    r = chk.rule(
+        rid,
+        "mask limits keep their configured order",
+        4,
+        "the azimuth mask is an ordered pair: [a0, a1] with a0 > a1 is the arc through North, [a1, a0] its complement. "
+        "From the configuration to the stored limits only order-preserving steps are applied (array(), a scalar "
+        "DEG2RAD factor, reshape): no sort / flip / min / max. The same for the elevation mask, whose test is written "
+        "for (low, high)",
+        "that the configured numbers are sensible",
+    )
+    sens = p.cls("resonaate.sensors.sensor_base.Sensor")
+    init = sens.methods.get("__init__")
+    ORDER_KEEPING = {"array", "asarray", "asfarray", "reshape", "copy", "float64", "radians", "deg2rad"}
+
+    def order_kept(e, src_ok, sort_ok=False):
+        """True iff e is src (as accepted by src_ok) through order-preserving wrappers / scalar factors."""
+        if src_ok(e):
+            return True
+        if isinstance(e, ast.Call):
+            nm = call_name(e)
+            if sort_ok and nm in ("sort", "sorted") and e.args and not e.keywords:
+                # an elevation mask is an interval (low, high): ascending order is what its test assumes
+                return order_kept(e.args[0], src_ok, sort_ok)
+            if nm in ORDER_KEEPING:
+                if isinstance(e.func, ast.Attribute) and nm in ("reshape", "copy"):
+                    return order_kept(e.func.value, src_ok, sort_ok)
+                return bool(e.args) and order_kept(e.args[0], src_ok, sort_ok)
+            return False
+        if isinstance(e, ast.BinOp) and isinstance(e.op, (ast.Mult, ast.Div)):
+            l_scalar = unparse(e.left) in ("const.DEG2RAD", "DEG2RAD", "const.RAD2DEG") or isinstance(e.left, ast.Constant)
+            r_scalar = unparse(e.right) in ("const.DEG2RAD", "DEG2RAD", "const.RAD2DEG") or isinstance(e.right, ast.Constant)
+            if l_scalar and isinstance(e.op, ast.Mult):
+                return order_kept(e.right, src_ok, sort_ok)
+            if r_scalar:
+                return order_kept(e.left, src_ok, sort_ok)
+        return False
+
+    for fld in ("az_mask", "el_mask"):
+        # constructor
+        asg = [n for n in walk_no_nested(init.node) if isinstance(n, ast.Assign) and unparse(n.targets[0]) == f"self.{fld}"]
+        cons = f"{init.qualname}:{fld}"
+        if len(asg) != 1:
+            r.violation(cons, f"mask-ctor:{len(asg)}", f"Sensor.__init__ does not assign self.{fld} exactly once", init.loc())
+        else:
+            e = inline_locals(init, asg[0].value)
+            if order_kept(e, lambda x, fld=fld: isinstance(x, ast.Name) and x.id == fld, sort_ok=(fld == "el_mask")):
+                r.ok(cons, f"self.{fld} = {unparse(asg[0].value)} (order kept)", init.loc(asg[0]))
+            else:
+                r.violation(cons, f"mask-reordered:{unparse(asg[0].value)[:60]}", f"`self.{fld} = {unparse(asg[0].value)[:80]}` does not keep the configured order of the two limits (only array / reshape / a DEG2RAD factor do)" + (": an azimuth mask through North, e.g. [300, 60] deg, becomes its complement [60, 300]" if fld == "az_mask" else ""), init.loc(asg[0]))
+        # setter
+        st = p.lookup_setter(sens, fld) if hasattr(p, "lookup_setter") else None
+        if st is not None:
+            prm = st.params[1]
+            stores = [n for n in walk_no_nested(st.node) if isinstance(n, ast.Assign) and unparse(n.targets[0]) == f"self._{fld}"]
+            cons = f"{st.qualname}:setter"
+            if stores and all(order_kept(n.value, lambda x, prm=prm: isinstance(x, ast.Name) and x.id == prm, sort_ok=(fld == "el_mask")) for n in stores):
+                r.ok(cons, f"self._{fld} = {unparse(stores[0].value)} (order kept)", st.loc(stores[0]))
+            else:
+                r.violation(cons, f"mask-setter-reordered:{fld}", f"the {fld} setter does not store the given pair in the given order", st.loc())
+    # configuration -> constructor
+    n_kw = 0
+    for fi in p.all_functions():
+        if not fi.module.name.startswith("resonaate.sensors"):
+            continue
+        for c in ast.walk(fi.node):
+            if not isinstance(c, ast.Call):
+                continue
+            for k in c.keywords:
+                if k.arg in ("az_mask", "el_mask"):
+                    want = {"az_mask": "azimuth_range", "el_mask": "elevation_range"}[k.arg]
+                    if isinstance(k.value, ast.Name) and k.value.id == k.arg:
+                        continue
+                    n_kw += 1
+                    cons = f"{fi.qualname}:{k.arg}"
+                    v = inline_locals(fi, k.value)
+                    if order_kept(v, lambda x, want=want: isinstance(x, ast.Attribute) and x.attr == want, sort_ok=(k.arg == "el_mask")):
+                        r.ok(cons, f"{k.arg} = {unparse(k.value)} (order kept)", fi.loc(k.value))
+                    else:
+                        r.violation(cons, f"mask-config:{k.arg}:{unparse(k.value)[:50]}", f"`{k.arg}={unparse(k.value)[:70]}`: the sensor's {k.arg} must be the configuration's `{want}` pair in its configured order", fi.loc(k.value))
+    if n_kw < 2:
+        r.error("mask-config-sites", f"{n_kw} configuration-to-mask keyword sites found (4 confirmed by hand)")
 
 
 def rule_r5(chk, p, t):
